@@ -147,6 +147,15 @@ def scenarios(rnd, quick, only_inbound=False):
             d["chunks"] = rnd.choice(partitions(rnd, total, [len(m) for m in msgs], 3, False)) if total > 1 else [max(total, 1)]
             cs.append(d)
         scns.append(dict(id="D%d" % si, role="acceptor", buf=rnd.choice([0, 1, 10]), senders=1, conns=cs))
+    # a write that is accepted only in part and times out (the peer stopped reading for longer than the write deadline), after
+    # which the peer reads again: whatever the connection does next, the outbound stream stays a prefix of the hand-off
+    for si in range(16 if quick else 200):
+        msgs = [gen_msg(rnd) for _ in range(rnd.randint(0, 2))]
+        total = sum(len(m) for m in msgs)
+        nout = rnd.choice([3, 5, 8])
+        faults = sorted(rnd.sample(range(1, 90 * nout), rnd.choice([1, 1, 2])))
+        scns.append(dict(id="W%d" % si, role=rnd.choice(["acceptor", "initiator"]), buf=rnd.choice([0, 1, 10]), senders=1,
+                         conns=[dict(sent=[list(m) for m in msgs], chunks=[total] if total else [1], out=nout, writeFaults=faults)]))
     if only_inbound:
         for s_ in scns:
             for c in s_["conns"]:
